@@ -406,6 +406,14 @@ func init() {
 		e.pathData["mapcands"] = m
 		return nil
 	})
+	R("Hook", func(e *Engine, fr *frame, a []Value) Value {
+		fn := a[1]
+		if i, ok := fn.(Iface); ok {
+			fn = i.V
+		}
+		e.hooks[strVal(a[0])] = fn
+		return nil
+	})
 	R("AssumeCollisionFree", func(e *Engine, fr *frame, a []Value) Value { e.assumeCollisionFree(); return nil })
 	R("Note", func(e *Engine, fr *frame, a []Value) Value {
 		if e.notes == nil {
@@ -507,6 +515,9 @@ func init() {
 		}
 		unsupported("pkg/errors.%s", f.Name())
 		return nil
+	}
+	pkgStubs["github.com/k0kubun/pp"] = func(e *Engine, f *ssa.Function, a []Value) Value {
+		return Tuple{BV(64, 0), Iface{}}
 	}
 	pkgStubs["fmt"] = func(e *Engine, f *ssa.Function, a []Value) Value {
 		switch f.Name() {
